@@ -71,6 +71,10 @@ class C03(Base):
     design_ref = "§6 C03"
     ops = ops_with_prefix("v1.", "v2.", "v3.", "v4.", "dot.v3")
 
+    def native_args(self, tier, seed):
+        # the ten integer scalar types ("where no overflow occurs"): component-wise i128 oracle
+        return ["native", "c03", "3000" if tier == "quick" else "300000", str(seed)]
+
     def families(self, rng, tier):
         out = []
         reps = 3 if tier == "quick" else 40
@@ -331,6 +335,9 @@ class C12(Base):
     title = "points form an affine space; homogeneous coordinates"
     design_ref = "§6 C12"
     ops = ops_with_prefix("p1.", "p2.", "p3.")
+
+    def native_args(self, tier, seed):
+        return ["native", "c12", "3000" if tier == "quick" else "300000", str(seed)]
     oracle_ops = ["o.p1.affine", "o.p2.affine", "o.p3.affine", "o.p1.centroid", "o.p2.centroid",
                   "o.p3.centroid", "o.p3.homogeneous"]
 
@@ -492,7 +499,7 @@ class C08(Base):
         "m4.inverse_transform", "m3.inverse_transform_vector2", "m3.inverse_transform_vector",
         "m4.inverse_transform_vector"]
     oracle_ops = ["o.dq.laws", "o.dq.inverse", "o.db3.laws", "o.db3.inverse", "o.db2.laws", "o.db2.inverse",
-                  "o.dq.matrix", "o.db2.matrix", "o.m4.transform", "o.m3.transform"]
+                  "o.dq.matrix", "o.db2.matrix", "o.m4.transform", "o.m3.transform", "o.m3.transform2"]
 
     def families(self, rng, tier):
         out = []
@@ -528,6 +535,8 @@ class C08(Base):
             out.append(Case("o.m4.transform", [rng.small() for _ in range(24)] + rng.distinct(3) + rng.distinct(3), family="oracle"))
             out.append(Case("o.m4.transform", singular_mat(rng, 3) + [rng.small() for _ in range(15)] + rng.distinct(3) + rng.distinct(3), family="oracle-singular"))
             out.append(Case("o.m3.transform", rand_mat(rng, 3, "small") + rand_mat(rng, 3, "small") + rng.distinct(3) + rng.distinct(3), family="oracle"))
+            out.append(Case("o.m3.transform2", [rng.small() for _ in range(12)] + rng.distinct(2) + rng.distinct(2), family="oracle"))
+            out.append(Case("o.m3.transform2", singular_mat(rng, 2) + [rng.small() for _ in range(8)] + rng.distinct(2) + rng.distinct(2), family="oracle-singular"))
         return out
 
 
@@ -557,7 +566,7 @@ class C10(Base):
     design_ref = "§6 C10"
     ops = ["proj.ortho", "proj.ortho_s", "proj.frustum", "proj.frustum_s", "proj.perspective",
            "proj.perspective_s", "proj.perspective_deg", "proj.planar", "proj.planar_s", "proj.to_perspective"]
-    oracle_ops = ["o.proj.ortho", "o.proj.frustum", "o.proj.perspective", "o.proj.planar"]
+    oracle_ops = ["o.proj.ortho", "o.proj.frustum", "o.proj.perspective", "o.proj.planar", "o.proj.planar_focal"]
 
     def n_random(self, tier):
         return 40 if tier == "quick" else 1500
@@ -612,6 +621,12 @@ class C10(Base):
             out.append(Case("o.proj.frustum", sorted([rng.rat(), rng.rat()]) + sorted([rng.rat(), rng.rat()]) + [vp[2], vp[3]], family="oracle"))
             out.append(Case("o.proj.perspective", vp, family="oracle"))
             out.append(Case("o.proj.planar", valid_planar(rng), family="oracle"))
+            # focal-point precondition with the planes given in either order and on either side of the origin
+            pf, pa, ph, _, _ = valid_planar(rng)
+            for _ in range(4):
+                n_, f_ = F(rng.rng(-200, 200), 10), F(rng.rng(-200, 200), 10)
+                out.append(Case("o.proj.planar_focal", [pf, pa, ph, n_, f_], family="oracle-focal"))
+                out.append(Case("o.proj.planar_focal", [pf, pa, ph, f_, n_], family="oracle-focal"))
             for op, args in self._reject(rng):
                 out.append(Case(op, args, family="oracle-reject", expect="panic"))
         return out
